@@ -110,6 +110,11 @@ def _member(shape, li, w, tag, two_tags):
     root = fdl.Config(fam.g1, x=inner, y=[inner, fdl.Config(fam.A, x=leaf, y={1: leaf, 'k': (leaf,)})])
   else:
     root = fdl.Config(fam.A, x=fdl.Config(fam.B, x=fdl.Config(fam.C, x=leaf, y=n0), y=n0), y=fam.g0, z=fdl.Partial(fam.B))
+  if tag:
+    # a tagged plain argument on the root as well (for shape 2 the root is a Partial mixing ArgFactory and plain arguments)
+    fdl.add_tag(root, 'y', T1)
+    if two_tags and shape in (2, 4):
+      fdl.add_tag(root, 'x', T0)
   return root, n0
 
 
